@@ -57,11 +57,14 @@ def rule_norm_path(ctx, r):
     got = ev(np_, WD, Obj("pathlike", __fspath__="x"))
     r.check(anchored_norm(got, WD, "x"), con + "::fspath", "path objects are converted with fspath() first",
             f"a path object is not converted before normalising (result {str(got)[:60]})", np_.where)
-    nps = idx.func(f"{CORE}:_norm_paths")
-    got = ev(nps, WD, ["a", "/b/../c", "./d"])
-    want = [ev(np_, WD, "a"), ev(np_, WD, "/b/../c"), ev(np_, WD, "./d")]
-    r.check(got == want, f"{nps.module.relpath}::{nps.qual}", "every path goes through _norm_path with the target's working directory, order kept",
-            f"_norm_paths does not map _norm_path(working_dir, p) over all paths (got {str(got)[:80]})", nps.where)
+    nps = idx.functions.get(f"{CORE}:_norm_paths")
+    if nps is None:
+        r.info(f"src/gwf/core.py::_norm_paths", "helper not present (the accessors that used it are evaluated as a whole by the flattening rule)")
+    else:
+        got = ev(nps, WD, ["a", "/b/../c", "./d"])
+        want = [ev(np_, WD, "a"), ev(np_, WD, "/b/../c"), ev(np_, WD, "./d")]
+        r.check(got == want, f"{nps.module.relpath}::{nps.qual}", "every path goes through _norm_path with the target's working directory, order kept",
+                f"_norm_paths does not map _norm_path(working_dir, p) over all paths (got {str(got)[:80]})", nps.where)
 
 
 def _loops_over(fn, accessor):
